@@ -61,6 +61,9 @@ SORTED_DEQUE_VX = VerusUnit(
             f(IMP1, "first", "ensures None on empty, else the smallest present item"),
             f(IMP1, "last", "ensures None on empty, else the largest present item"),
             f(IMP1, "cleanup_back", "requires sorted physical items with a live first item (or empty); pops exactly the trailing erased run; wf after"),
+            VFn(F, [IMP1, "fn cleanup_front"], "cleanup_front.ovl", ["C16"],
+                "requires the inner deque's rep_ok; drops exactly the leading run of erased items (phys' = phys.skip(erased_prefix)); "
+                "loop invariant: everything before idx is erased", rules=R | {"N15"}, name="SortedDeque::cleanup_front"),
             f(IMP1, "pop_first", "requires wf; None and unchanged on empty, else returns live[0], live' = live[1..], wf"),
             f(IMP1, "pop_last", "requires wf; None and unchanged on empty, else returns live.last, live' = live[..last], wf"),
             f(IMP1, "find_index", "Some(i) => physical item i has a key Equal to `key`; None => no physical item has", subs=[
